@@ -723,10 +723,12 @@ int main(int argc, char** argv) {
     }
     return o;
   };
-  wd.start();
-  if (a.mode == "storm") {
+  if (a.mode == "storm") {  // before the watchdog thread exists (it reads these members)
     wd.classify = []() -> std::string { return "stuck:storm-round-or-stop-never-finished"; };
     wd.dump_extra = nullptr;
+  }
+  wd.start();
+  if (a.mode == "storm") {
     uint64_t ns = vf::budget(40, 1500);
     for (uint64_t e = 0; e < ns && !vf::failed(); ++e) {
       if (a.only_episode >= 0 && uint64_t(a.only_episode) != e) continue;
